@@ -408,6 +408,9 @@ func run(t *testing.T, d *sim.D) {
 			w.batch = 5000
 		}
 		w.start0 = uint64(d.Cfg.Get("start", 1))
+	if w.start0 < 1 { // the node starts at the registry deployment block or at last processed + 1, never at 0
+		w.start0 = 1
+	}
 		executionclient.VerifDial = w.dial
 		defer func() { executionclient.VerifDial = nil }()
 		defer w.teardown()
@@ -660,7 +663,7 @@ func (w *world) finale() {
 			if cs == "gave-up" {
 				d.Probe("gave-up-without-fault-after-restart")
 			}
-			w.finding("session-ended-without-fault:"+cs, "a freshly started node ended (%s) although no fault was injected", cs)
+			w.finding("session-ended-without-fault-"+cs, "a freshly started node ended (%s) although no fault was injected", cs)
 			return
 		}
 		d.Logf("finale: node process restarts (was %s)", cs)
@@ -690,7 +693,10 @@ func (w *world) finale() {
 	}
 	w.mu.Unlock()
 	if len(missing) > 0 {
-		w.finding("incomplete-after-recovery", "after recovery and head %d (follow distance %d) the history lacks blocks %v", w.chain.tip, w.fd, missing)
+		// statement-level this is the same failure as a gap revealed by a later entry: a block in range
+		// that emitted contract logs has no entry (here: and never will, nothing is in flight)
+		w.findingIn("finale", "block-skipped", "after recovery, head %d announced fault-free (follow distance %d) and quiescence, block(s) %v in [%d,%d] carry contract logs and were never handed over",
+			w.chain.tip, w.fd, missing, w.start0, target)
 	} else {
 		d.Probe("finale-complete")
 	}
